@@ -1401,8 +1401,14 @@ func TestC05(t *testing.T) {
 		"the box is quiet before the armed operation (read from the goroutine stacks), voteproofs handed out before the advance are taken from the channel inside the callback just before it advances: " +
 		"every voteproof received afterwards was handed out after the advance returned and must not be of a stage point below the point the box was taken to, LastVoteproof() must not be replaced by such a voteproof, " +
 		"and a later Count() must not hand one out (event order only, no timing). " +
+		"phase 4 (concurrent first ballots): n=4..8 nodes, 8..14 rising heights per case; at every stage point of a drawn program (INIT / INIT+ACCEPT / expel INIT + suffrage confirm (+ ACCEPT) / suffrage confirm first / " +
+		"expel INIT and suffrage confirm mixed / ACCEPT only) the FIRST ballots of the stage point, which has no record yet, go into Vote() together from 4..8 goroutines (barrier start; drawn voters, sometimes a dissenter); " +
+		"when all is quiet (goroutine stacks) every vote for which Vote() returned true must be recorded for its stage point whatever the schedule was: the record table has a record of the key, Voted() of the point " +
+		"has the sign fact, MissingNodes() does not report the voter, and after a Count() a key with enough accepted votes for one fact has produced its majority voteproof unless the box went past it; then the box " +
+		"is taken above everything by two majorities (remove + release) under the release rules above. " +
 		"non-trivial = phase 1: history with >=2 counted voteproofs (>=2 cleanup cycles) and a suffrage-confirm ballot; phase 2: >=3 counted voteproofs, >=1 legitimate release of a finished point's record and " +
-		">=1 late ballot for a finished point with no record left; phase 3: >=1 accepted advance that fired during the vote that (by the reference tally) completes the tally of P; distinct by history")
+		">=1 late ballot for a finished point with no record left; phase 3: >=1 accepted advance that fired during the vote that (by the reference tally) completes the tally of P; " +
+		"phase 4: >=8 concurrent rounds, >=1 round with every vote accepted and >=1 suffrage-confirm round; distinct by history")
 	r.Floor(15)
 	r.Assume("ballots satisfy bl.IsValid(networkID)", "record identity = object address observed through the verif hook; pool re-use of an address for a new record is legitimate",
 		"'moved past a stage point' is judged only across heights (LastPoint() never returns to a lower height); inside one height the box re-admits some lower points on purpose "+
